@@ -52,6 +52,18 @@ THE PASS (part of the trusted base; it is deliberately small, intraprocedural an
    `projection = torch.zeros(...); projection[best_dim] = 1.0` as fresh although another branch of
    `_build_tree` binds `projection = self.fixed_vector`.
 
+4. Private helpers (one level across functions, added after a behaviour-preserving helper extraction raised an alarm).
+   A module-level function or method whose name starts with one underscore is a *private helper*; all definitions of
+   that short name in the analysed files are taken together, and all calls `_h(...)`, `self._h(...)`, `cls._h(...)`,
+   `Class._h(...)` anywhere in the analysed files are its call sites.
+     * a site inside a private helper whose target is (a view of) one of the helper's own parameters (never re-bound in
+       it) is `fresh` iff there is at least one call site and EVERY call site passes a fresh tensor for that parameter
+       (an omitted argument takes its default, which is not a caller tensor; `*args`/`**kwargs` at a call: mayAlias);
+     * a call of a private helper is `fresh` iff every `return` of every definition is fresh or is (a view of) a
+       parameter for which this call passes a fresh tensor.
+   Public methods and the `_..._impl` methods reached from them with caller tensors stay as before: their call sites
+   pass parameters, which are mayAlias.
+
 What the pass does NOT see (stated, not hidden): aliasing through containers, through attributes set elsewhere,
 through calls into other functions (handled by the explicit allow-list in Props/C18.lean, which is justified
 with the two auxiliary inventories below), and anything torch does internally.  The runtime half of C18
@@ -147,6 +159,68 @@ def _targets(t):
     if isinstance(t, ast.Starred):
         return _targets(t.value)
     return []
+
+
+# ---- private helpers (one level of interprocedural reasoning) --------------------------------------
+# REG: short name -> [Fn] for every module-level function / method whose name starts with one underscore (no
+# dunder), over all analysed files; CALLS: short name -> [(calling Fn, ast.Call)].  Filled by `build_registry`.
+REG, CALLS = {}, {}
+_DEPTH = [0]
+
+
+def _callee_short(func):
+    """short name of a possibly private-helper call: `_h(...)`, `self._h(...)`, `cls._h(...)`, `Class._h(...)`."""
+    if isinstance(func, ast.Name):
+        return func.id, False
+    if isinstance(func, ast.Attribute) and isinstance(func.value, ast.Name):
+        return func.attr, func.value.id in ('self', 'cls')
+    return None, False
+
+
+def _is_private(name):
+    return name.startswith('_') and not name.startswith('__')
+
+
+def _call_arg(g, call, bound, pname):
+    """the argument expression a call hands to parameter `pname` of the definition `g` (None: left to its default)"""
+    a = g.node.args
+    names = [x.arg for x in a.posonlyargs + a.args]
+    if bound and names and names[0] in ('self', 'cls'):
+        names = names[1:]
+    for k in call.keywords:
+        if k.arg == pname:
+            return k.value
+    if pname in names:
+        i = names.index(pname)
+        if i < len(call.args) and not any(isinstance(x, ast.Starred) for x in call.args[:i + 1]):
+            return call.args[i]
+        if any(isinstance(x, ast.Starred) for x in call.args) or any(k.arg is None for k in call.keywords):
+            return False          # *args / **kwargs: unknown
+        return None
+    return False
+
+
+def _param_fresh_at_every_call(short, pname):
+    """every call of the private helper `short`, anywhere in the analysed files, passes a fresh tensor for `pname`
+    (at least one call exists); an omitted argument takes the default, which is not a caller tensor"""
+    calls = CALLS.get(short, [])
+    if not calls or _DEPTH[0] > 3:
+        return False
+    _DEPTH[0] += 1
+    try:
+        for f, c, bound in calls:
+            for g in REG.get(short, []):
+                e = _call_arg(g, c, bound, pname)
+                if e is False:
+                    return False
+                if e is None:
+                    continue
+                f.solve()
+                if f.site_prov(c, e) != FRESH:
+                    return False
+        return True
+    finally:
+        _DEPTH[0] -= 1
 
 
 class Fn:
@@ -405,11 +479,11 @@ class Fn:
                     return FRESH
                 if self.nested_returns_fresh(e.func.id):
                     return FRESH
-                return ALIAS
+                return self._helper_call_prov(e)
             if isinstance(e.func, ast.Attribute):
                 m = e.func.attr
                 if U(e.func.value) in ('self', 'cls'):
-                    return ALIAS                       # method of the object: unknown
+                    return self._helper_call_prov(e)   # method of the object: unknown unless a private helper
                 if m in ALLOC_METHODS:
                     return FRESH
                 if m in VIEW_METHODS or (m.endswith('_') and not m.startswith('_')):
@@ -417,6 +491,33 @@ class Fn:
                 return ALIAS
             return ALIAS
         return ALIAS
+
+    def _helper_call_prov(self, e):
+        """A call of a private helper (`_h`, `self._h`): fresh when every definition of that name returns a fresh
+        tensor or (a view of) one of its own parameters for which this call passes a fresh tensor."""
+        short, bound = _callee_short(e.func)
+        if short is None or not _is_private(short) or short not in REG or _DEPTH[0] > 3:
+            return ALIAS
+        _DEPTH[0] += 1
+        try:
+            for g in REG[short]:
+                g.solve()
+                rs = [n for n in g.nodes if isinstance(n, ast.Return) and n.value is not None
+                      and not (isinstance(n.value, ast.Constant) and n.value.value is None)]
+                if not rs:
+                    return ALIAS
+                for r in rs:
+                    if g.prov(r.value) == FRESH:
+                        continue
+                    root = g._root_name(r.value)
+                    if root is None or root not in g.params or root in g.bind:
+                        return ALIAS
+                    arg = _call_arg(g, e, bound, root)
+                    if arg is None or arg is False or self.prov(arg) != FRESH:
+                        return ALIAS
+            return FRESH
+        finally:
+            _DEPTH[0] -= 1
 
     @staticmethod
     def _as_view(p):
@@ -449,22 +550,22 @@ class Fn:
                         and not U(f.value).startswith(('torch.nn.init', 'nn.init')):
                     p = self.prov(f.value)
                     if p != CONTAINER:
-                        out.append((n.lineno, n.col_offset, f'{U(f.value)}.{f.attr}', self._site_prov(self.site_prov(n, f.value))))
+                        out.append((n.lineno, n.col_offset, f'{U(f.value)}.{f.attr}', self._site_prov(self.site_prov(n, f.value), f.value)))
                 for k in n.keywords:
                     if k.arg == 'out':
-                        out.append((n.lineno, n.col_offset + 1, f'out={U(k.value)}', self._site_prov(self.site_prov(n, k.value))))
+                        out.append((n.lineno, n.col_offset + 1, f'out={U(k.value)}', self._site_prov(self.site_prov(n, k.value), k.value)))
             elif isinstance(n, ast.Assign):
                 for t in n.targets:
                     for s in self._sub_targets(t):
                         if self._is_tensor_subscript(s):
-                            out.append((n.lineno, n.col_offset, f'{U(s.value)}[...] =', self._site_prov(self.site_prov(n, s.value))))
+                            out.append((n.lineno, n.col_offset, f'{U(s.value)}[...] =', self._site_prov(self.site_prov(n, s.value), s.value)))
             elif isinstance(n, ast.AugAssign):
                 op = {ast.Add: '+', ast.Sub: '-', ast.Mult: '*', ast.Div: '/', ast.MatMult: '@', ast.Pow: '**',
                       ast.BitAnd: '&', ast.BitOr: '|', ast.BitXor: '^', ast.Mod: '%', ast.FloorDiv: '//'}.get(type(n.op), '?')
                 t = n.target
                 if isinstance(t, ast.Subscript):
                     if self._is_tensor_subscript(t):
-                        out.append((n.lineno, n.col_offset, f'{U(t.value)}[...] {op}=', self._site_prov(self.site_prov(n, t.value))))
+                        out.append((n.lineno, n.col_offset, f'{U(t.value)}[...] {op}=', self._site_prov(self.site_prov(n, t.value), t.value)))
                 elif isinstance(t, ast.Name):
                     v = n.value
                     if isinstance(v, ast.Constant) and isinstance(v.value, (int, float)) and self._is_counter(t.id):
@@ -473,7 +574,7 @@ class Fn:
                         continue
                     if self.prov(t) == CONTAINER:
                         continue
-                    out.append((n.lineno, n.col_offset, f'{t.id} {op}=', self._site_prov(self.site_prov(n, t))))
+                    out.append((n.lineno, n.col_offset, f'{t.id} {op}=', self._site_prov(self.site_prov(n, t), t)))
                 elif isinstance(t, ast.Attribute):
                     out.append((n.lineno, n.col_offset, f'{U(t)} {op}=', 'mayAlias'))
         out.sort()
@@ -493,9 +594,17 @@ class Fn:
             f = f.parent
         return False
 
-    @staticmethod
-    def _site_prov(p):
-        return 'fresh' if p == FRESH else 'mayAlias'
+    def _site_prov(self, p, target=None):
+        if p == FRESH:
+            return 'fresh'
+        # the target is (a view of) a parameter of a private helper: fresh when every call of the helper passes a fresh tensor
+        if target is not None and self.parent is None:
+            short = self.qual.split('.')[-1]
+            root = self._root_name(target)
+            if _is_private(short) and root is not None and root in self.params and root not in self.bind \
+                    and root not in ('self', 'cls') and _param_fresh_at_every_call(short, root):
+                return 'fresh'
+        return 'mayAlias'
 
     @staticmethod
     def _sub_targets(t):
@@ -511,7 +620,37 @@ class Fn:
         return self.prov(s.value) != CONTAINER
 
 
+_REG_FOR = [None]
+
+
+def build_registry(src):
+    """(re)build REG / CALLS for this source tree (once per translator run)"""
+    if _REG_FOR[0] is src:
+        return
+    _REG_FOR[0] = src
+    REG.clear()
+    CALLS.clear()
+    allf = []
+    for rel in FILES:
+        allf += _functions(src, rel)
+    for qual, f in allf:
+        short = qual.split('.')[-1]
+        if f.parent is None and _is_private(short):
+            REG.setdefault(short, []).append(f)
+    for qual, f in allf:
+        for n in f.nodes:
+            if isinstance(n, ast.Call):
+                short, bound = _callee_short(n.func)
+                if short in REG:
+                    CALLS.setdefault(short, []).append((f, n, bound))
+
+
 def functions(src, rel):
+    build_registry(src)
+    return _functions(src, rel)
+
+
+def _functions(src, rel):
     """All analysed functions of a file: [(qualname, Fn)], nested ones included, Kermac classes skipped."""
     tree = src.tree(rel)
     out = []
